@@ -29,13 +29,13 @@ use std::{
 	},
 };
 
-#[cfg(not(pdb_verif_scaled))]
+#[cfg(not(pdb_verif_small_index))]
 pub const MIN_INDEX_BITS: u8 = 16;
-#[cfg(pdb_verif_scaled)]
+#[cfg(pdb_verif_small_index)]
 pub const MIN_INDEX_BITS: u8 = crate::verif::MIN_INDEX_BITS;
-#[cfg(not(pdb_verif_scaled))]
+#[cfg(not(pdb_verif_small_index))]
 pub const MIN_REF_COUNT_BITS: u8 = 16;
-#[cfg(pdb_verif_scaled)]
+#[cfg(pdb_verif_small_index)]
 pub const MIN_REF_COUNT_BITS: u8 = crate::verif::MIN_INDEX_BITS;
 // Measured in index entries
 const MAX_REINDEX_BATCH: usize = 8192;
